@@ -69,7 +69,7 @@ package crypto
 //@ cfunc Fr_write_bytes props C05 C09
 //@ requires a != nil && valid(out, 32)
 //@ assigns out[0:32]
-//@ ensures be32(out[0:32]) == *a
+//@ ensures be32(out[0:32]) == old(*a)
 
 //@ cfunc G2_check_log pure props C07 C09
 //@ requires x != nil && y != nil
@@ -117,8 +117,9 @@ package crypto
 //@ dead-return 2   // the length was checked before the call: BAD_ENCODING cannot come back
 //@ requires a != nil
 //@ assigns *a
-//@ ensures result == nil || iserr(result, *invalidInputsError)
-//@ ensures len(src) != 32 ==> result != nil
+//@ ensures [error-class] result == nil || iserr(result, *invalidInputsError)
+//@ ensures [accepts-exactly-1-to-r-1] (result == nil) == old(len(src) == 32 && 1 <= be32(src[0:32]) && be32(src[0:32]) < FrR())
+//@ ensures [value] result == nil ==> *a == old(be32(src[0:32]))
 
 //@ func readVerifVector mode int props C07 C09
 //@ requires len(src) == 96*len(A) && len(A) >= 1
@@ -147,9 +148,14 @@ package crypto
 //@ requires x != nil
 //@ assigns nothing
 
-//@ func (*pointE2).isInfinity mode int props C09
+//@ func (*pointE2).isInfinity mode int props C05 C09
 //@ requires p != nil
 //@ assigns nothing
+//@ ensures result == e2IsInf(*p)
+
+//@ func isG2Compressed mode int props C05
+//@ assigns nothing
+//@ ensures result
 
 // ---------------------------------------------------------------------------------------------
 // hashing / randomness helpers used by key generation
@@ -613,7 +619,7 @@ package crypto
 //@ cfunc Fp_write_bytes props C05 C09
 //@ requires a != nil && valid(out, 48)
 //@ assigns out[0:48]
-//@ ensures be48(out[0:48]) == *a
+//@ ensures be48(out[0:48]) == old(*a)
 
 // ZCash compressed G1 format (IETF pairing-friendly-curves draft, appendix C): byte 0 carries the
 // C (compression), I (infinity) and S (sign) flags in its three top bits.
@@ -656,8 +662,8 @@ package crypto
 //@ ensures [x-range] old(in_len == 48 && g1flagC(in) && !g1flagI(in) && g1x(in) >= FpP()) ==> result == BAD_VALUE
 //@ ensures [x-in-range-not-bad-value] old(in_len == 48 && g1flagC(in) && !g1flagI(in) && g1x(in) < FpP()) ==> result != BAD_VALUE && result != BAD_ENCODING
 //@ ensures [on-curve] old(in_len == 48 && g1flagC(in) && !g1flagI(in) && g1x(in) < FpP()) ==> (result == VALID) == old(fpSqrtOk(g1rhs(fpToMont(g1x(in))))) && (result == VALID || result == POINT_NOT_ON_CURVE)
-//@ ensures [value-x] old(in_len == 48 && !g1flagI(in)) && result == VALID ==> a.x == old(fpToMont(g1x(in))) && a.z == cglobal(BLS12_381_pR)
-//@ ensures [value-y] old(in_len == 48 && !g1flagI(in)) && result == VALID ==> (fpSgn(fpSqrtM(g1rhs(a.x))) == old((in[0]/32)%2) ==> a.y == fpSqrtM(g1rhs(a.x))) && (fpSgn(fpSqrtM(g1rhs(a.x))) != old((in[0]/32)%2) ==> a.y == fpNegM(fpSqrtM(g1rhs(a.x))))
+//@ ensures [value-x c-only] old(in_len == 48 && !g1flagI(in)) && result == VALID ==> a.x == old(fpToMont(g1x(in))) && a.z == cglobal(BLS12_381_pR)
+//@ ensures [value-y c-only] old(in_len == 48 && !g1flagI(in)) && result == VALID ==> (fpSgn(fpSqrtM(g1rhs(a.x))) == old((in[0]/32)%2) ==> a.y == fpSqrtM(g1rhs(a.x))) && (fpSgn(fpSqrtM(g1rhs(a.x))) != old((in[0]/32)%2) ==> a.y == fpNegM(fpSqrtM(g1rhs(a.x))))
 //@ loop 1 invariant 1 <= i && i <= 48 && forall(k, 1, i, in[k] == 0)
 
 // ---- F_p^2 and E2 (G2) serialization. The ZCash format writes an F_p^2 element c0 + c1*u as c1 || c0
@@ -745,9 +751,9 @@ package crypto
 //@ ensures [x-range] old(in_len == 96 && g1flagC(in) && !g1flagI(in) && (g2x1(in) >= FpP() || g2x0(in) >= FpP())) ==> result == BAD_VALUE
 //@ ensures [x-in-range-not-bad-value] old(in_len == 96 && g1flagC(in) && !g1flagI(in) && g2x1(in) < FpP() && g2x0(in) < FpP()) ==> result != BAD_VALUE && result != BAD_ENCODING
 //@ ensures [on-curve] old(in_len == 96 && g1flagC(in) && !g1flagI(in) && g2x1(in) < FpP() && g2x0(in) < FpP()) ==> (result == VALID) == fp2SqrtOk(g2rhs(fp2c(fpToMont(old(g2x0(in))), fpToMont(old(g2x1(in)))))) && (result == VALID || result == POINT_NOT_ON_CURVE)
-//@ ensures [value-x-zcash-order] old(in_len == 96 && !g1flagI(in)) && result == VALID ==> a.x[0] == fpToMont(old(g2x0(in))) && a.x[1] == fpToMont(old(g2x1(in)))
-//@ ensures [value-z] old(in_len == 96 && !g1flagI(in)) && result == VALID ==> a.z[0] == cglobal(BLS12_381_pR) && a.z[1] == 0
-//@ ensures [value-y] old(in_len == 96 && !g1flagI(in)) && result == VALID ==> (fp2Sgn(fp2SqrtM(g2rhs(a.x))) == old((in[0]/32)%2) ==> a.y == fp2SqrtM(g2rhs(a.x))) && (fp2Sgn(fp2SqrtM(g2rhs(a.x))) != old((in[0]/32)%2) ==> a.y == fp2NegM(fp2SqrtM(g2rhs(a.x))))
+//@ ensures [value-x-zcash-order c-only] old(in_len == 96 && !g1flagI(in)) && result == VALID ==> a.x[0] == fpToMont(old(g2x0(in))) && a.x[1] == fpToMont(old(g2x1(in)))
+//@ ensures [value-z c-only] old(in_len == 96 && !g1flagI(in)) && result == VALID ==> a.z[0] == cglobal(BLS12_381_pR) && a.z[1] == 0
+//@ ensures [value-y c-only] old(in_len == 96 && !g1flagI(in)) && result == VALID ==> (fp2Sgn(fp2SqrtM(g2rhs(a.x))) == old((in[0]/32)%2) ==> a.y == fp2SqrtM(g2rhs(a.x))) && (fp2Sgn(fp2SqrtM(g2rhs(a.x))) != old((in[0]/32)%2) ==> a.y == fp2NegM(fp2SqrtM(g2rhs(a.x))))
 //@ loop 1 invariant 1 <= i && i <= 96 && forall(k, 1, i, in[k] == 0)
 
 //@ cfunc E1_to_affine nobody
@@ -965,7 +971,7 @@ package crypto
 //@ func (*pubKeyBLSBLS12381).Encode mode int props C05 C16 C09
 //@ requires a != nil
 //@ assigns nothing
-//@ ensures len(result) == 96 && fresh(result)
+//@ ensures len(result) == 96 && fresh(result) && g2encOf(result, a.point)
 
 //@ func (*pubKeyBLSBLS12381).Algorithm mode int props C17
 //@ assigns nothing
@@ -986,14 +992,17 @@ package crypto
 //@ func writePointE2 mode int props C05 C09
 //@ requires a != nil && len(dest) >= 96
 //@ assigns dest[0:96]
+//@ ensures g2encOf(dest, old(*a))
 
 //@ func writePointE1 mode int props C05 C09
 //@ requires a != nil && len(dest) >= 48
 //@ assigns dest[0:48]
+//@ ensures g1encOf(dest, old(*a))
 
 //@ func writeScalar mode int props C05 C09
 //@ requires x != nil && len(dest) >= 32
 //@ assigns dest[0:32]
+//@ ensures be32(dest[0:32]) == old(*x)
 
 //@ func (*prKeyBLSBLS12381).PublicKey mode int props C12 C16 C09
 //@ requires sk != nil
@@ -1052,3 +1061,42 @@ package crypto
 //@ ensures [length] in_len != 32 ==> result == BAD_ENCODING
 //@ ensures [range] in_len == 32 ==> (result == VALID) == old(be32(in[0:32]) < FrR()) && (result == VALID || result == BAD_VALUE)
 //@ ensures [value] result == VALID ==> *a == old(be32(in[0:32]))
+
+// ---- Go decoders / encoders of BLS keys (C05)
+
+//@ pred g2encOf(out, P) = (e2IsInf(P) ==> g2infEnc(out)) && (!e2IsInf(P) ==> g1flagC(out) && !g1flagI(out) && (out[0]/32)%2 == fp2Sgn(e2y(e2Affine(P))) && g2x1(out) == fpFromMont(fp2c1(e2x(e2Affine(P)))) && g2x0(out) == fpFromMont(fp2c0(e2x(e2Affine(P)))))
+
+//@ func readPointE2 mode int props C05 C09
+//@ dead-return 1   // E2_read_bytes only returns VALID, BAD_ENCODING, BAD_VALUE or POINT_NOT_ON_CURVE
+//@ requires a != nil && len(src) >= 1
+//@ assigns *a
+//@ ensures [error-class] result == nil || iserr(result, *invalidInputsError)
+//@ ensures [accepts-exactly-canonical] (result == nil) == old(len(src) == 96 && g2canon(src))
+//@ ensures [decoded-point] result == nil ==> *a == old(g2pt(src))
+
+//@ func readPointE1 mode int props C05 C09
+//@ dead-return 1   // E1_read_bytes only returns VALID, BAD_ENCODING, BAD_VALUE or POINT_NOT_ON_CURVE
+//@ requires a != nil && len(src) >= 1
+//@ assigns *a
+//@ ensures [error-class] result == nil || iserr(result, *invalidInputsError)
+//@ ensures [accepts-exactly-canonical] (result == nil) == old(len(src) == 48 && g1canon(src))
+//@ ensures [decoded-point] result == nil ==> *a == old(g1pt(src))
+
+//@ func (*blsBLS12381Algo).decodePrivateKey mode int props C05 C09
+//@ assigns nothing
+//@ ensures [rejects] !(len(privateKeyBytes) == 32 && 1 <= be32(privateKeyBytes[0:32]) && be32(privateKeyBytes[0:32]) < FrR()) ==> result0 == nil && iserr(result1, *invalidInputsError)
+//@ ensures [accepts] len(privateKeyBytes) == 32 && 1 <= be32(privateKeyBytes[0:32]) && be32(privateKeyBytes[0:32]) < FrR() ==> result1 == nil && typeis(result0, *prKeyBLSBLS12381) && fresh(unbox(result0, *prKeyBLSBLS12381)) && unbox(result0, *prKeyBLSBLS12381).scalar == be32(privateKeyBytes[0:32]) && unbox(result0, *prKeyBLSBLS12381).pk == nil
+
+//@ func (*blsBLS12381Algo).decodePublicKey mode int props C05 C09
+//@ assigns nothing
+//@ ensures [rejects] !(len(publicKeyBytes) == 96 && g2canon(publicKeyBytes) && inG2(g2pt(publicKeyBytes))) ==> result0 == nil && iserr(result1, *invalidInputsError)
+//@ ensures [accepts-exactly-canonical-G2-encodings] len(publicKeyBytes) == 96 && g2canon(publicKeyBytes) && inG2(g2pt(publicKeyBytes)) ==> result1 == nil && typeis(result0, *pubKeyBLSBLS12381) && fresh(unbox(result0, *pubKeyBLSBLS12381)) && unbox(result0, *pubKeyBLSBLS12381).point == g2pt(publicKeyBytes) && unbox(result0, *pubKeyBLSBLS12381).isIdentity == e2IsInf(g2pt(publicKeyBytes))
+
+//@ func (*blsBLS12381Algo).decodePublicKeyCompressed mode int props C05 C09
+//@ assigns nothing
+//@ ensures [same-as-decodePublicKey] (result1 == nil) == (len(publicKeyBytes) == 96 && g2canon(publicKeyBytes) && inG2(g2pt(publicKeyBytes)))
+
+//@ func (*prKeyBLSBLS12381).Encode mode int props C05 C09
+//@ requires a != nil
+//@ assigns nothing
+//@ ensures len(result) == 32 && fresh(result) && be32(result[0:32]) == a.scalar
